@@ -9,12 +9,12 @@ import (
 	"io"
 	"os"
 	"os/exec"
+	"os/signal"
 	"path/filepath"
 	"runtime"
 	"sort"
 	"strconv"
 	"strings"
-	"os/signal"
 	"sync"
 	"sync/atomic"
 	"syscall"
@@ -30,21 +30,23 @@ type Driver struct {
 	Self  string // path of this binary (for workers)
 	Start time.Time
 
-	mu           sync.Mutex
-	Evaluations  int
-	digests      map[string]bool
-	Feat         map[string]int
-	Samples      []any
-	Violations   []Reported
-	Known        map[string]int // known finding id -> hits
-	Inconclusive []string
-	CrashSkipped map[string]int
-	Extra        map[string]any // extra coverage keys
-	known        *KnownFile
-	interrupted  atomic.Bool
-	planned      int
-	replayN      int
-	Results      []Result // kept only when Post != nil
+	mu            sync.Mutex
+	Evaluations   int
+	digests       map[string]bool
+	Feat          map[string]int
+	Samples       []any
+	Violations    []Reported
+	Known         map[string]int // known finding id -> hits
+	Inconclusive  []string
+	CrashSkipped  map[string]int
+	Extra         map[string]any // extra coverage keys
+	known         *KnownFile
+	sigCount      map[string]int
+	newViolations int
+	interrupted   atomic.Bool
+	planned       int
+	replayN       int
+	Results       []Result // kept only when Post != nil
 }
 
 type Reported struct {
@@ -124,24 +126,26 @@ func (d *Driver) report(c Case, v Violation) {
 		if d.Known[kid] == 1 {
 			fmt.Printf("KNOWN-FINDING: property=%s %s (%s)\n", d.Chk.ID, kid, v.Sig)
 			rep.Replay = d.writeReplay(c, v, "known-"+kid)
+			d.Violations = append(d.Violations, rep)
 		}
-		d.Violations = append(d.Violations, rep)
 		return
 	}
 	// de-duplicate output by signature: first 5 per signature get a replay file
-	n := 0
-	for _, o := range d.Violations {
-		if o.KnownID == "" && o.Violation.Sig == v.Sig {
-			n++
-		}
+	if d.sigCount == nil {
+		d.sigCount = map[string]int{}
 	}
+	n := d.sigCount[v.Sig]
+	d.sigCount[v.Sig]++
+	d.newViolations++
 	if n < maxReplays() {
 		d.replayN++
 		rep.Replay = d.writeReplay(c, v, fmt.Sprintf("v%03d", d.replayN))
 		fmt.Printf("VIOLATION property=%s replay=%s\n", d.Chk.ID, rep.Replay)
 		fmt.Printf("  clause=%s sig=%s\n  %s\n", v.Clause, v.Sig, strings.ReplaceAll(trunc(v.Msg, 1500), "\n", "\n  "))
+		d.Violations = append(d.Violations, rep)
+	} else if n < 50 {
+		d.Violations = append(d.Violations, rep) // keep a bounded sample per signature
 	}
-	d.Violations = append(d.Violations, rep)
 }
 
 func maxReplays() int {
@@ -226,12 +230,7 @@ func Main(id, tier string, seed int64, root string) int {
 
 // Finish writes evidence and decides the exit code.
 func (d *Driver) Finish() int {
-	nNew := 0
-	for _, v := range d.Violations {
-		if v.KnownID == "" {
-			nNew++
-		}
-	}
+	nNew := d.newViolations
 	distinct := len(d.digests)
 	if v, ok := d.Extra["distinct_nontrivial_override"].(int); ok {
 		distinct = v
